@@ -30,6 +30,7 @@ type Outcome struct {
 	Unordered bool // V is a list/vector whose order is not prescribed (keys, vals, seq/vec of a set)
 	Why       string
 	Payload   any // set by model functions that fail: carried through unchanged (e.g. a reference-interpreter error)
+	Forbid    []*Node // with K == Unspecified: results that are wrong whatever reading of the documentation is taken
 }
 
 func val(v *Node) Outcome       { return Outcome{K: Value, V: v} }
@@ -533,13 +534,14 @@ func Call(name string, a []*Node) Outcome {
 			return val(Bo(false))
 		case Map:
 			if !isKey(a[1]) {
-				return unspec("non-string key")
+				// error or false are both defensible; true is not: maps hold string and keyword keys only
+				return Outcome{K: Unspecified, Why: "non-string key", Forbid: []*Node{Bo(true)}}
 			}
 			_, ok := a[0].M[key(a[1])]
 			return val(Bo(ok))
 		case Set:
 			if !isKey(a[1]) {
-				return unspec("non-string key")
+				return Outcome{K: Unspecified, Why: "non-string key", Forbid: []*Node{Bo(true)}}
 			}
 			return val(Bo(a[0].Mem[key(a[1])]))
 		}
